@@ -598,7 +598,7 @@ func main() {
 }
 
 func replayFresh(bin, path string) (bool, string) {
-	ctx, cancel := context.WithTimeout(context.Background(), 120*time.Second)
+	ctx, cancel := context.WithTimeout(context.Background(), 400*time.Second)
 	defer cancel()
 	cmd := exec.CommandContext(ctx, bin, "replay", "-q", "-file", path)
 	cmd.Env = append(os.Environ(), "GOMAXPROCS=2", autoEnv(strings.Contains(filepath.Base(bin), "-auto")))
